@@ -16,7 +16,7 @@ CACHE = os.path.join(VERIF, ".cache")
 COQ = os.path.join(VERIF, "coq")
 GEN = os.path.join(COQ, "Gen")
 GOLDEN = os.path.join(COQ, "golden", "Gen")
-GEN_MODULES = ["Internal", "Root", "Checked", "Must", "Alloc", "Transparent"]
+GEN_MODULES = ["Internal", "Root", "Checked", "Must", "Alloc", "Transparent", "Zero"]
 NPROC = os.cpu_count() or 8
 
 ENV = dict(os.environ)
